@@ -284,6 +284,10 @@ func c09Remux(c *fw.Ctx, k int) {
 	if k%6 == 5 && vc != "" {
 		ac = ""
 	}
+	if k%12 == 7 && vc != "" {
+		// an audio codec MPEG-TS output does not carry: the PMT must not declare it and nothing may be sent on its PID
+		ac = []string{"g711a", "g711u"}[(k/12)%2]
+	}
 	sp := gen.EsSpec{VCodec: vc, ACodec: ac, AacIdx: 4, AacChans: 2, AacObj: 2, NVideo: 150 + r.Intn(150), GopLen: 5 + r.Intn(10), AudioPer: 1 + r.Intn(3), MaxNals: 1 + r.Intn(2),
 		VideoMs: []int{20, 40, 100}[r.Intn(3)], AudioGap: r.Intn(3) == 0, TsJump: k%3 == 1, TsStart: []uint32{0, 5000, 0xFFFFFF - 3000}[r.Intn(3)]}
 	c.Describe("remuxer continuity: spec=%+v", sp)
@@ -381,10 +385,22 @@ func c09Remux(c *fw.Ctx, k int) {
 	}
 	last := map[uint16]int{}
 	n := 0
+	declared := map[uint16]bool{}
+	{
+		d := ref.NewTsDemux()
+		d.Feed(rig.patpmt)
+		for _, st := range d.FirstPmt.Streams {
+			declared[st.PID] = true
+		}
+	}
 	for idx, pk := range rig.produced {
 		p, err := ref.ParseTsPacket(pk)
 		if err != nil {
 			c.Violate("remux/packet", fmt.Sprintf("packet %d handed to the muxer does not parse: %v", idx, err), nil)
+			return
+		}
+		if (p.PID == 0x100 || p.PID == 0x101) && !declared[p.PID] {
+			c.Violate("remux/pid-not-in-pmt", fmt.Sprintf("packet %d of the remuxer's output is on PID %#x, which the announced PMT does not declare | spec=%+v", idx, p.PID, sp), nil)
 			return
 		}
 		if p.AFC&1 == 0 {
